@@ -145,6 +145,16 @@ def cases(tier, seed):
                 out.append({"spec": spec, "cfg": cfg_r, "sc": sc, "ls": [k], "base_digest": base_r.rec.digest})
         if nf > cap or ns > cap:
             CAPPED = True
+        if ci % 3 == 1:
+            # non-default step-size parameters (lamb_red = 1: never enlarge; lamb_inc = 1.25): the first evaluation faults again
+            cfg_p = dict(cfg); cfg_p["params"] = {"lamb_red": 1.0, "lamb_inc": 1.25}
+            base_p = run_one(spec, cfg_p, sc)
+            for kind in KINDS:
+                lo = base_p.construct_counts.get(kind, 0) + 1
+                for k in range(lo, min(base_p.fp.counts[kind], lo + 11) + 1):
+                    out.append({"spec": spec, "cfg": cfg_p, "sc": sc, "f": [[kind, k]]})
+            for k in range(1, min(base_p.fl.n_factor, 8) + 1):
+                out.append({"spec": spec, "cfg": cfg_p, "sc": sc, "lf": [k]})
         # a user-supplied step-solver factory that reports failure on its k-th call (StepSolverError while a trial is set up)
         base_f = run_one(spec, cfg, sc, factory=())
         for k in range(1, min(base_f.factory.n, cap) + 1):
@@ -261,8 +271,8 @@ def run_case(case):
                 viol.append(M.V(f"C07|{tag}|faulty_trial_accepted", f"trial {k} saw a failure but was reported accepted"))
             if t.it_out is not t.it_in and not M.same(t.it_out, t.it_in):
                 viol.append(M.V(f"C07|{tag}|faulty_trial_moved", f"trial {k} saw a failure but returned a different iterate"))
-            if not t.accepted and not (t.lamb == 2.0 * (1.0 / t.dt)):
-                viol.append(M.V(f"C07|{tag}|lambda_not_doubled", f"trial {k}: lambda {t.lamb!r} after failure, expected {2.0 / t.dt!r}"))
+            if not t.accepted and not (t.lamb > 1.0 / t.dt):
+                viol.append(M.V(f"C07|{tag}|step_size_not_reduced", f"trial {k}: lambda {t.lamb!r} after a failure at lambda {1.0 / t.dt!r}: the step size was not reduced"))
             nxt = tr[k + 1].it_in if k + 1 < len(tr) else getattr(solver, "final_iterate", None)
             if nxt is not None and not M.same(nxt, t.it_in):
                 viol.append(M.V(f"C07|{tag}|iterate_changed_after_failure", f"after failed trial {k} the solve continued from another point"))
@@ -274,7 +284,7 @@ def run_case(case):
     for v in viol:
         if v["sig"] not in seen:
             seen.add(v["sig"]); vs.append(v)
-    return {"outcome": tag + ":" + oc, "key": f"{spec['tag']}|{G.cfg_key(cfg)}|{sc is not None}|{case.get('f')}|{case.get('lf')}|{case.get('ls')}|{case.get('sf')}|{region}",
+    return {"outcome": tag + ":" + oc, "key": f"{spec['tag']}|{G.cfg_key(cfg)}|{sorted((cfg.get('params') or {}).items())}|{sc is not None}|{case.get('f')}|{case.get('lf')}|{case.get('ls')}|{case.get('sf')}|{region}",
             "violations": vs, "stats": {"fired": len(fired), "failed_trials": sum(1 for t in tr if t.failed)}}
 
 
